@@ -89,9 +89,7 @@ def _witness(P, R, fn):
                 subflag = l
     rollbacks = set(c.bb for c in fn.calls() if c.resolved == FACTS + "::rollback_undo_frame" and c.bb in fn.normal_blocks())
     n = 0
-    for d in fn.defs().get(0, []):
-        if d[2] != "assign":
-            continue
+    for d in _verdict_sites(fn):
         v = strip(fn.sym_rvalue(d[3][4]))
         if v == ("const", "bool", False):
             continue
@@ -151,6 +149,43 @@ def _witness(P, R, fn):
     R.count("true_returns", n)
     if n < FLOORS["true_returns"]:
         R.undecide("a", "floor", "only %d possibly-true returns found" % n)
+
+
+def _verdict_sites(fn, local=0, seen=None, depth=0):
+    """Definitions that decide the verdict: assignments to the return place, followed through copies of multiply-defined
+    locals (the return place of an inlined helper, `let verdict = ..` on several branches) and through Some(..) wrappers
+    (a helper returning Option<bool>: Some(v) is the verdict v, None means `no verdict here`)."""
+    seen = seen if seen is not None else set()
+    if local in seen or depth > 4:
+        return []
+    seen.add(local)
+    out = []
+    for d in fn.defs().get(local, []):
+        if d[2] != "assign" or d[3][3][1]:
+            continue
+        rv = d[3][4]
+        if rv[0] == "use" and rv[1][0] in "cm":
+            src = rv[1][1]
+            inner = [e for e in src[1] if e != "*"]
+            whole = [x for x in fn.defs().get(src[0], []) if (x[2] == "assign" and not x[3][3][1]) or x[2] == "call"]
+            hops = 0
+            while len(whole) == 1 and whole[0][2] == "assign" and whole[0][3][4][0] == "use" and whole[0][3][4][1][0] in "cm" and hops < 4:
+                nxt = whole[0][3][4][1][1]                    # single copy `v = (dest as Some).0` / `dest = move ret`: look through it
+                src = [nxt[0], list(nxt[1]) + list(src[1])]
+                inner = [e for e in src[1] if e != "*"]
+                whole = [x for x in fn.defs().get(src[0], []) if (x[2] == "assign" and not x[3][3][1]) or x[2] == "call"]
+                hops += 1
+            proj_ok = not inner or all(isinstance(e, list) and e[0] in ("d", "f") for e in inner)
+            if proj_ok and (len(whole) >= 2 or src[0] in fn.raw.get("inl_ret", [])) and src[0] > fn.argc:
+                out.extend(_verdict_sites(fn, src[0], seen, depth + 1))
+                continue
+        if rv[0] == "agg" and rv[1] == "adt" and rv[2].endswith("Option::None"):
+            continue
+        if rv[0] == "agg" and rv[1] == "adt" and rv[2].endswith("Option::Some") and rv[3]:
+            out.append((d[0], d[1], d[2], [d[3][0], d[3][1], "=", d[3][3], ["use", rv[3][0]]]))
+            continue
+        out.append(d)
+    return out
 
 
 def _loops_back(fn, rb, sw):
